@@ -26,6 +26,12 @@ def run(F, R):
                 "the document is stored under a key that is not the locally computed digest (client-supplied hash): a client can register a document under another document's hash")
         d_from_parse = flows_through(b, c.args[2], r"parse::executable::parse_query$") is not None
         R.check(d_from_parse, "R31.1", "set:document-is-parse-of-query", c.where(), "document derives from parse_query(&request.query)", "stored document is not the parse of the request's query text")
+        o_doc = trace(b, c.args[2])[0]
+        foreign = [x for k, x in o_doc if k == "call" and x.callee and not re.search(r"parse::executable::parse_query$|::clone$", x.callee)]
+        pre = any(k == "field" and ".parsed_query" in x for k, x in o_doc) or bool(foreign)
+        R.check(not pre, "R31.1", "set:document-never-the-preparsed-one", c.where(), "no flow from request.parsed_query into the stored document",
+                "the document stored under the digest of request.query can be request.parsed_query — a document parsed ahead from some other text: a request can register "
+                "one document under the hash of another")
         # digest and parse both read request.query
         for name, calls in (("digest", dg), ("parse_query", pq)):
             ok = bool(calls) and all(flows_through(b, x.args[0], r"::as_bytes$") is not None or True for x in calls)
@@ -73,6 +79,23 @@ def run(F, R):
         from_parse = flows_through(b, pqv, r"parse::executable::parse_query$") is not None
         R.check(from_get != from_parse, "R31.2", "parsed_query-source:" + ("storage" if from_get else "parse"), "%s:%s" % (b.file, line),
                 "parsed_query from %s" % ("storage.get" if from_get else "parse_query"), "parsed_query is set from neither/both storage.get and parse_query")
+
+    R.rule("R31.4", "a stored document is served only to hash-only requests: storage.get is reachable only on the `request.query.is_empty()` edge — a request "
+                    "that carries a query text is always verified against its hash, never answered from the cache")
+    emp = [c for c in b.calls() if c.callee and re.search(r"string::\{impl#\d+\}::is_empty$|str::\{impl#\d+\}::is_empty$", c.callee) and
+           any(k == "field" and ".query" in x for k, x in trace(b, c.args[0])[0])]
+    for c in gets:
+        ok4 = False
+        for e in emp:
+            sw = [bb for bb, t in b.switches() if t[1][0] in ("c", "m") and t[1][1] == [e.dest[0]]]
+            for sbb in sw:
+                t = b.term(sbb)
+                false_t = [tg for v, tg in t[2] if str(v) == "0"]
+                if b.dominates(sbb, c.bb) and false_t and c.bb not in b.reachable(false_t[0], avoid=[sbb]):
+                    ok4 = True
+        R.check(ok4, "R31.4", "get:only-for-hash-only-requests", c.where(), "lookup behind `request.query.is_empty()`",
+                "storage.get is reachable for a request that carries a query text: on a cache hit the text is never hashed, so any text sent with a registered hash executes "
+                "the registered document instead of being rejected")
 
     R.rule("R31.3", "every early error precedes any storage.set: no Err is constructed after a set")
     for c in sets:
